@@ -237,6 +237,22 @@ CHECKS["C17"] = dict(
     technique="TLA+ spec (OemProps: rational matrix algebra) model-checked with TLC; TLC-generated matrices replayed into "
               "typhon.retrieval.oem")
 
+CHECKS["C18"] = dict(
+    text="PARTIAL (index bookkeeping in the degenerate-weight regimes). BmciProps.tla defines, for a database sequence and an "
+         "observation, the selection (exact matches in the 'spike' regime S = 1e-6 D where all other weights underflow to 0; "
+         "everything in the 'flat' regime S = 1e12 D), its mean, variance, x-sorted values and cumulative shares as exact "
+         "rationals, without mentioning the database order; TLC checks the model-level laws and emits sampled databases "
+         "(ties, constant x, 1-2 channels, observation inside/outside); BMCI.predict / cdf / predict_quantiles are run for "
+         "permutations of the database, diagonal and correlated D and x2_max in {-1, 0, 0.5, 50}: estimates must equal the "
+         "prescribed statistics, be permutation invariant, be unchanged by x2_max, cdf non-decreasing ending at 1, quantiles "
+         "monotone within the database range, NaN (no exception) without hits.",
+    ref="DESIGN.md §5 C18, §6",
+    note="NOT decided: anything depending on the numerical value of exp(-chi^2/2) for non-degenerate weights, incl. the "
+         "'change bounded by the left-out weight share' clause. x2_max = 0 is exercised with diagonal D only (for correlated D "
+         "exact matches sit on the window boundary up to rounding).",
+    technique="TLA+ spec (BmciProps over exact rationals) checked with TLC; TLC-generated databases replayed into "
+              "typhon.retrieval.bmci.BMCI in regimes with exactly representable weights")
+
 NOT_APPLICABLE = {
     "C07": "Every clause concerns floating-point accuracy of sin/cos/arctan2/sqrt compositions or convergence of a "
            "fixed-point iteration over a continuous domain; TLA+/TLC has no reals or transcendental functions and there "
